@@ -395,7 +395,10 @@ func runCase(c Case) (res result) {
 			return false
 		}
 		for i, k := range keys {
-			if counts[i] > 1 {
+			// Only I/O errors have an identity (unique message per source / error
+			// buffer / translation); two different wrong-content buffers
+			// legitimately produce identical data-integrity messages.
+			if counts[i] > 1 && (strings.Contains(k, "io-fail ") || strings.Contains(k, "translated ")) {
 				add("error-offered-twice:"+hname+op, "%s: error %q was offered to OnError %d times; log %v", op, k, counts[i], h.logString())
 			}
 			if !in(below, k) {
